@@ -55,6 +55,17 @@ func (e *Engine) VerifyFunc(fn *ssa.Function, spec *FuncSpec) (res *FuncResult) 
 			res.Obligations = nil
 		}
 	}()
+	for h := range spec.Hidden {
+		found := false
+		for _, en := range spec.Ensures {
+			if en.Label == h {
+				found = true
+			}
+		}
+		if !found {
+			panic(&SpecError{"hide: no ensures clause labelled [" + h + "]"})
+		}
+	}
 	if len(fn.Blocks) == 0 {
 		panic(unsupported("function has no body"))
 	}
